@@ -195,6 +195,10 @@ def rename_genes(model: "Model", rename_dict: Dict[str, str]) -> None:
     for i in remove_genes:
         model.genes.remove(i)
         i._model = None
+        for group in model.get_associated_groups(i):
+            group.remove_members([i])
+            if context:
+                context(partial(group.add_members, [i]))
         if context:
             context(partial(model.genes.add, i))
             context(partial(setattr, i, "_model", model))
